@@ -19,7 +19,7 @@ CONSTANTS
   Dhi = 5
   Dscore = 2
   Bug = "none"
-  Families = {"rpc1", "mix", "px", "gater", "meshA", "meshB", "fanA", "fanB", "joinfan", "graftfull", "graftbo"}
+  Families = {"rpc1", "mix", "px", "gater", "meshA", "meshB", "fanA", "fanB", "joinfan", "graftfull", "graftbo", "floodmesh", "floodplain"}
   ThrSets <- StdThrSets
   AllVec <- NoAllVec
 INVARIANT Emit
